@@ -1,3 +1,236 @@
 package main
 
-func runC02More(ctx *Ctx) {}
+import (
+	"fmt"
+
+	"github.com/zclconf/go-cty/cty"
+)
+
+// runC02More: modulo, collections against plain Go references, and the
+// correspondence of every operation method on wholly known operands.
+func runC02More(ctx *Ctx) {
+	o := ValOpts{Null: true, Small: true}
+	// correspondence of all ops on known operands (incl. wrong-typed ones)
+	n := ctx.N(300, 8000)
+	for _, s := range opSpecs {
+		for i := 0; i < n; i++ {
+			args := s.gen(ctx, o)
+			out, _, _ := opOut(func() cty.Value { return s.call(args) })
+			w := s.wire(args)
+			ctx.Add("op."+s.name, out, w...)
+		}
+	}
+	// modulo on integers that fit: remainder of truncated division
+	for i := 0; i < ctx.N(2000, 50000); i++ {
+		x := int64(ctx.R.Intn(2000001) - 1000000)
+		y := int64(ctx.R.Intn(2001) - 1000)
+		if ctx.R.Intn(4) == 0 {
+			x = ctx.R.Int63n(1<<60) - (1 << 59)
+			y = ctx.R.Int63n(1<<40) - (1 << 39)
+		}
+		if y == 0 {
+			continue
+		}
+		a, b := cty.NumberIntVal(x), cty.NumberIntVal(y)
+		out, res, p := opOut(func() cty.Value { return a.Modulo(b) })
+		ctx.Add("op.mod", out, encVal(a), encVal(b))
+		key := fmt.Sprintf("mod %d %d", x, y)
+		ctx.Eval(key, !p)
+		if p {
+			ctx.Fail(Failure{Site: "modulo", Sig: "mod-panic", What: "modulo panicked on integers", Input: key, GoLit: a.GoString() + " ; " + b.GoString(), Outcome: "panic"})
+			continue
+		}
+		want := x % y // Go's % is the remainder of truncated division
+		got, acc := res.AsBigFloat().Int64()
+		if acc != 0 || got != want {
+			ctx.Fail(Failure{Site: "modulo", Sig: "mod-int", What: "modulo of integers is not the remainder of truncated division", Input: key, GoLit: a.GoString() + " ; " + b.GoString(), Outcome: res.GoString()})
+		}
+	}
+	// collections built from generated members
+	vo := ValOpts{Null: true, Small: true}
+	for i := 0; i < ctx.N(2000, 40000); i++ {
+		ety := genTy(ctx.R, 1, TyOpts{})
+		k := ctx.R.Intn(4)
+		members := make([]cty.Value, k)
+		for j := range members {
+			members[j] = genVal(ctx.R, ety, 1, vo)
+		}
+		c02List(ctx, ety, members)
+		c02Map(ctx, ety, members)
+		c02Set(ctx, ety, members)
+		c02Tuple(ctx, members)
+	}
+}
+
+func expectMember(ctx *Ctx, site string, got cty.Value, want cty.Value, input, lit string) {
+	if !got.RawEquals(want) {
+		ctx.Fail(Failure{Site: site, Sig: site + ":wrong-member", What: "lookup did not return the member the value was constructed from", Input: input, GoLit: lit, Outcome: got.GoString() + " want " + want.GoString()})
+	}
+}
+
+func c02List(ctx *Ctx, ety cty.Type, ms []cty.Value) {
+	var l cty.Value
+	if len(ms) == 0 {
+		l = cty.ListValEmpty(ety)
+	} else {
+		l = cty.ListVal(ms)
+	}
+	w := encVal(l)
+	if ln := l.Length(); !ln.RawEquals(cty.NumberIntVal(int64(len(ms)))) {
+		ctx.Fail(Failure{Site: "length", Sig: "length:list", What: "list length differs from the number of members", Input: w, GoLit: l.GoString(), Outcome: ln.GoString()})
+	}
+	for idx := -1; idx <= len(ms)+1; idx++ {
+		k := cty.NumberIntVal(int64(idx))
+		has := l.HasIndex(k)
+		var got cty.Value
+		p, _ := try(func() { got = l.Index(k) })
+		in := idx >= 0 && idx < len(ms)
+		input := fmt.Sprintf("%s [%d]", w, idx)
+		ctx.Eval("listidx "+input, true)
+		if !has.IsKnown() || has.True() != in {
+			ctx.Fail(Failure{Site: "hasindex", Sig: "hasindex:list", What: "HasIndex disagrees with the index range", Input: input, GoLit: l.GoString(), Outcome: has.GoString()})
+		}
+		if p == in {
+			ctx.Fail(Failure{Site: "index-iff-hasindex", Sig: "index-iff-hasindex:list", What: "Index succeeds iff HasIndex is true: violated for a list", Input: input, GoLit: l.GoString(), Outcome: fmt.Sprint("panicked=", p)})
+		}
+		if !p && in {
+			expectMember(ctx, "index", got, ms[idx], input, l.GoString())
+			if !got.Type().Equals(ety) {
+				ctx.Fail(Failure{Site: "index", Sig: "index:type", What: "element does not have the element type", Input: input, GoLit: l.GoString(), Outcome: got.Type().GoString()})
+			}
+		}
+	}
+	// fractional and wrong-typed keys are rejected
+	for _, k := range []cty.Value{cty.NumberFloatVal(0.5), cty.StringVal("0")} {
+		if p, _ := try(func() { l.Index(k) }); !p {
+			ctx.Fail(Failure{Site: "index", Sig: "index:badkey-accepted", What: "a fractional or wrong-typed list key yielded a value", Input: w + " " + encVal(k), GoLit: l.GoString(), Outcome: "no panic"})
+		}
+		if h := l.HasIndex(k); !h.IsKnown() || h.True() {
+			ctx.Fail(Failure{Site: "hasindex", Sig: "hasindex:badkey", What: "HasIndex true for a fractional or wrong-typed key", Input: w + " " + encVal(k), GoLit: l.GoString(), Outcome: h.GoString()})
+		}
+	}
+}
+
+func c02Map(ctx *Ctx, ety cty.Type, ms []cty.Value) {
+	keys := []string{"a", "b", "k"}
+	m := map[string]cty.Value{}
+	for i, v := range ms {
+		if i < len(keys) {
+			m[keys[i]] = v
+		}
+	}
+	var mv cty.Value
+	if len(m) == 0 {
+		mv = cty.MapValEmpty(ety)
+	} else {
+		mv = cty.MapVal(m)
+	}
+	w := encVal(mv)
+	if ln := mv.Length(); !ln.RawEquals(cty.NumberIntVal(int64(len(m)))) {
+		ctx.Fail(Failure{Site: "length", Sig: "length:map", What: "map length differs from the number of members", Input: w, GoLit: mv.GoString(), Outcome: ln.GoString()})
+	}
+	for _, k := range append(keys, "nope") {
+		kv := cty.StringVal(k)
+		want, in := m[k]
+		has := mv.HasIndex(kv)
+		var got cty.Value
+		p, _ := try(func() { got = mv.Index(kv) })
+		input := w + " [" + k + "]"
+		ctx.Eval("mapidx "+input, true)
+		if !has.IsKnown() || has.True() != in {
+			ctx.Fail(Failure{Site: "hasindex", Sig: "hasindex:map", What: "HasIndex disagrees with key presence", Input: input, GoLit: mv.GoString(), Outcome: has.GoString()})
+		}
+		if p == in {
+			ctx.Fail(Failure{Site: "index-iff-hasindex", Sig: "index-missing-map-key-returns-null", What: "Index succeeds iff HasIndex is true: a map lookup of a missing key returns a null instead of being rejected", Input: input, GoLit: mv.GoString() + ".Index(cty.StringVal(\"" + k + "\"))", Outcome: fmt.Sprint("panicked=", p, " got=", got.GoString())})
+		}
+		if !p && in {
+			expectMember(ctx, "index", got, want, input, mv.GoString())
+		}
+	}
+}
+
+func c02Set(ctx *Ctx, ety cty.Type, ms []cty.Value) {
+	if len(ms) == 0 {
+		return
+	}
+	s := cty.SetVal(ms)
+	w := encVal(s)
+	for _, m := range ms {
+		h := s.HasElement(m)
+		ctx.Eval("sethas "+w+" "+encVal(m), true)
+		if !h.IsKnown() || !h.True() {
+			ctx.Fail(Failure{Site: "haselement", Sig: "haselement:member-missing", What: "a set does not contain a member it was built from", Input: w + " " + encVal(m), GoLit: s.GoString(), Outcome: h.GoString()})
+		}
+	}
+	// a value equal to no member is not an element
+	probe := genVal(ctx.R, ety, 1, ValOpts{Small: true})
+	inRef := false
+	for _, m := range ms {
+		if m.Equals(probe).True() {
+			inRef = true
+		}
+	}
+	if h := s.HasElement(probe); !h.IsKnown() || h.True() != inRef {
+		ctx.Fail(Failure{Site: "haselement", Sig: "haselement:reference", What: "HasElement disagrees with a linear scan using Equals", Input: w + " " + encVal(probe), GoLit: s.GoString(), Outcome: h.GoString()})
+	}
+	// distinct count
+	distinct := 0
+	for i, m := range ms {
+		dup := false
+		for _, e := range ms[:i] {
+			if e.Equals(m).True() {
+				dup = true
+			}
+		}
+		if !dup {
+			distinct++
+		}
+	}
+	if ln := s.Length(); !ln.RawEquals(cty.NumberIntVal(int64(distinct))) {
+		ctx.Fail(Failure{Site: "length", Sig: "length:set", What: "set length differs from the number of distinct members", Input: w, GoLit: s.GoString(), Outcome: ln.GoString()})
+	}
+}
+
+func c02Tuple(ctx *Ctx, ms []cty.Value) {
+	t := cty.TupleVal(ms)
+	w := encVal(t)
+	for idx := -1; idx <= len(ms); idx++ {
+		k := cty.NumberIntVal(int64(idx))
+		has := t.HasIndex(k)
+		var got cty.Value
+		p, _ := try(func() { got = t.Index(k) })
+		in := idx >= 0 && idx < len(ms)
+		input := fmt.Sprintf("%s [%d]", w, idx)
+		ctx.Eval("tupidx "+input, true)
+		if !has.IsKnown() || has.True() != in {
+			ctx.Fail(Failure{Site: "hasindex", Sig: "hasindex:tuple", What: "HasIndex disagrees with the tuple length", Input: input, GoLit: t.GoString(), Outcome: has.GoString()})
+		}
+		if p == in {
+			ctx.Fail(Failure{Site: "index-iff-hasindex", Sig: "index-iff-hasindex:tuple", What: "Index succeeds iff HasIndex is true: violated for a tuple", Input: input, GoLit: t.GoString(), Outcome: fmt.Sprint("panicked=", p)})
+		}
+		if !p && in {
+			expectMember(ctx, "index", got, ms[idx], input, t.GoString())
+		}
+	}
+	if ln := t.Length(); !ln.RawEquals(cty.NumberIntVal(int64(len(ms)))) {
+		ctx.Fail(Failure{Site: "length", Sig: "length:tuple", What: "tuple length differs", Input: w, GoLit: t.GoString(), Outcome: ln.GoString()})
+	}
+	// objects: attributes come back as constructed
+	attrs := map[string]cty.Value{}
+	for i, m := range ms {
+		attrs[attrNames[i%len(attrNames)]] = m
+	}
+	ov := cty.ObjectVal(attrs)
+	for name, want := range attrs {
+		var got cty.Value
+		p, _ := try(func() { got = ov.GetAttr(name) })
+		if p {
+			ctx.Fail(Failure{Site: "getattr", Sig: "getattr:panic", What: "GetAttr panicked for a declared attribute", Input: encVal(ov) + " ." + name, GoLit: ov.GoString(), Outcome: "panic"})
+		} else {
+			expectMember(ctx, "getattr", got, want, encVal(ov)+" ."+name, ov.GoString())
+		}
+	}
+	if p, _ := try(func() { ov.GetAttr("undeclared") }); !p {
+		ctx.Fail(Failure{Site: "getattr", Sig: "getattr:undeclared-accepted", What: "GetAttr of an undeclared attribute yielded a value", Input: encVal(ov), GoLit: ov.GoString(), Outcome: "no panic"})
+	}
+}
